@@ -98,8 +98,45 @@ def check_pdu(pdu: Any, dest: str) -> list[tuple[str, str]]:
     return []
 
 
+def library_built_pdus(part: Part) -> None:
+    """PDUs the library builds itself on a point-to-point connection (connect, 40 numbered data frames, the T_ACKs for 40
+    received responses, disconnect): each must serialise inside its cEMI frame and parse back to the same PDU."""
+    from xknx.cemi import CEMIFrame, CEMILData, CEMIMessageCode
+    from xknx.telegram import IndividualAddress, apci
+
+    from ..sim.bus import BusWorld, Device
+
+    dev = Device("dev", "1.1.5", False, "normal")
+    with BusWorld([dev]) as w:
+        async def user() -> None:
+            async with w.xknx.management.connection(IndividualAddress("1.1.5")) as conn:
+                for _ in range(40):
+                    await conn.request(payload=apci.DeviceDescriptorRead(descriptor=0))
+
+        t = w.spawn(user(), name="harness-user")
+        w.loop.run_until(w.loop.time() + 600)
+        if not t.done() or t.exception() is not None:
+            part.viol("library-built-pdu:connection-fails", f"40 requests on one connection: {t.exception() if t.done() else 'not finished'!r}; sent {[repr(tg.tpci) for _t, tg in w.sent][-6:]}", {"library": True})
+        kinds = set()
+        for _t, tg in w.sent:
+            part.evaluations += 1
+            part.nontrivial += 1
+            kinds.add(type(tg.tpci).__name__)
+            try:
+                raw = CEMIFrame(code=CEMIMessageCode.L_DATA_REQ, data=CEMILData.init_from_telegram(tg, src_addr=IndividualAddress("1.1.250"))).to_knx()
+                back = CEMIFrame.from_knx(raw).data.tpci  # type: ignore[union-attr]
+            except Exception as exc:  # noqa: BLE001
+                part.viol(exc_sig("library-built-pdu-does-not-encode", exc), f"{tg.tpci!r}: {exc!r}", {"library": True})
+                continue
+            if type(back) is not type(tg.tpci) or back.sequence_number != tg.tpci.sequence_number:
+                part.viol(f"library-built-pdu-changes:{type(tg.tpci).__name__}", f"{tg.tpci!r} -> {raw.hex()} -> {back!r}", {"library": True})
+        if not {"TConnect", "TDataConnected", "TAck", "TDisconnect"} <= kinds:
+            part.viol("harness:library-pdus-incomplete", f"{kinds}", {"library": True})
+
+
 def run(ctx: Ctx) -> None:
     part = Part()
+    library_built_pdus(part)
     for dest in DESTS:
         for octet in range(256):
             part.evaluations += 1
@@ -123,11 +160,15 @@ def run(ctx: Ctx) -> None:
     part.sample({"pdu": "TAck", "seq": 15, "dest": "individual"})
     ctx.merge(part)
     ctx.rule = ("complete: all 256 octets x {individual, group, broadcast} through TPCI.resolve against the TPDU table of Transport Layer 2 (written in the harness), "
-                "re-encoding compared on the transport bits (0xFC data / 0xFF control); every constructible PDU x sequence 0..15 x admissible destination encode->resolve; numbered PDUs with sequence numbers -1, 16, 17, 31, 64, 255, 256 must be refused by the encoder or survive the round trip. "
+                "re-encoding compared on the transport bits (0xFC data / 0xFF control); every constructible PDU x sequence 0..15 x admissible destination encode->resolve; numbered PDUs with sequence numbers -1, 16, 17, 31, 64, 255, 256 must be refused by the encoder or survive the round trip; the PDUs the library builds itself on a management connection (connect, 40 numbered requests, 40 T_ACKs, disconnect) serialise and parse back equal. "
                 "non-trivial = octets that were not rejected + all PDU cases")
 
 
 def replay(case: Any) -> list[tuple[str, str]]:
+    if case and case.get("library"):
+        p = Part()
+        library_built_pdus(p)
+        return [(sg, v[1]) for sg, v in p.viols.items()]
     if "octet" in case:
         return check_octet(case["octet"], case["dest"])[1]
     for pdu, dests in pdus():
